@@ -56,23 +56,17 @@ Proof.
 Qed.
 Print Assumptions C47_height_and_client_ids.
 
-(** REFUTED: ParseChainID panics (explicit panic after strconv.ParseUint fails on a revision >= 2^64 that
-    IsRevisionFormat accepts).  Witness "a-18446744073709551616". *)
-Theorem C47_parse_chain_id_refuted : exists c, parse_chain_id c = Panic.
-Proof. exact parse_chain_id_refuted. Qed.
-Print Assumptions C47_parse_chain_id_refuted.
-
-Theorem C47_parse_chain_id_panic_iff c :
-  parse_chain_id c = Panic <->
-  is_revision_format c = true /\ exists l, idx_last (split_on dash c) = Ok l /\ parse_uint64 l = None.
-Proof. exact (parse_chain_id_panic_iff c). Qed.
-Print Assumptions C47_parse_chain_id_panic_iff.
-
-Theorem C47_parse_chain_id_guarded c :
-  (is_revision_format c = true -> forall l, idx_last (split_on dash c) = Ok l -> parse_uint64 l <> None) ->
-  safe (parse_chain_id c).
-Proof. exact (parse_chain_id_guarded c). Qed.
-Print Assumptions C47_parse_chain_id_guarded.
+(** ParseChainID is total (fix d71d2e9; before it, a revision >= 2^64 accepted by IsRevisionFormat reached an
+    explicit panic — the former witness "a-18446744073709551616" now parses to revision 0) *)
+Theorem C47_parse_chain_id c :
+  (exists n, parse_chain_id c = Ok n /\ n < two64) /\ safe (parse_chain_id c) /\
+  (is_revision_format c = false -> parse_chain_id c = Ok 0) /\
+  (parse_chain_id chain_id_witness = Ok 0 /\ is_revision_format chain_id_witness = true).
+Proof.
+  exact (conj (parse_chain_id_total c) (conj (parse_chain_id_safe c)
+        (conj (parse_chain_id_not_revision c) parse_chain_id_witness))).
+Qed.
+Print Assumptions C47_parse_chain_id.
 
 (** ICS-20 denominations and transfer messages *)
 Theorem C47_denoms p d port chan :
@@ -151,22 +145,32 @@ Theorem C47_channel_msgs m1 u m2 :
 Proof. exact (conj (msg_v1_validate_basic_safe m1) (msg_v2_validate_basic_safe u m2)). Qed.
 Print Assumptions C47_channel_msgs.
 
-(** REFUTED: MsgCreateClient.ValidateBasic reads msg.ClientState.Value (and msg.ConsensusState.Value) before
-    the nil check of UnpackClientState: a message without the field panics. *)
-Theorem C47_client_msgs_refuted :
-  (exists m, msg_client_validate_basic m = Panic) /\
-  (forall cst, msg_client_validate_basic (CreateClient true AnyNil cst) = Panic).
-Proof. exact (conj msg_client_validate_basic_refuted create_client_nil_client_state_panics). Qed.
-Print Assumptions C47_client_msgs_refuted.
+(** client messages: no panic as soon as the light-client methods reached through the Any fields
+    (ClientState.Validate, ConsensusState.ValidateBasic, ClientMessage.ValidateBasic, Plan.ValidateBasic) do not
+    panic; a MsgCreateClient without client_state / consensus_state is rejected with an error (fix e3d0037;
+    before it the size check dereferenced the nil Any). *)
+Theorem C47_client_msgs m :
+  (msg_client_externals_safe m = true -> safe (msg_client_validate_basic m)) /\
+  (msg_client_validate_basic m = Panic -> msg_client_externals_safe m = false) /\
+  (forall sg cst, msg_client_validate_basic (CreateClient sg AnyNil cst) = Err) /\
+  (forall n t v, v = Ok tt \/ v = Err ->
+     msg_client_validate_basic (CreateClient true (AnyVal n (CVal (mkCS t v))) AnyNil) = Err).
+Proof.
+  exact (conj (msg_client_validate_basic_safe m) (conj (msg_client_validate_basic_panic_external m)
+        (conj create_client_nil_client_state_errs create_client_nil_consensus_state_errs))).
+Qed.
+Print Assumptions C47_client_msgs.
 
-(** ... and that is the only way a client message panics, provided the light-client methods it calls
-    (ClientState.Validate, ConsensusState.ValidateBasic, ClientMessage.ValidateBasic, Plan.ValidateBasic) do not *)
-Theorem C47_client_msgs_guarded m :
-  (msg_client_derefs_ok m = true -> msg_client_externals_safe m = true -> safe (msg_client_validate_basic m)) /\
-  (msg_client_externals_safe m = true -> msg_client_validate_basic m = Panic ->
-   exists sg cs cst, m = CreateClient sg cs cst /\ (cs = AnyNil \/ cst = AnyNil)).
-Proof. exact (conj (msg_client_validate_basic_guarded m) (msg_client_validate_basic_only_create m)). Qed.
-Print Assumptions C47_client_msgs_guarded.
+(** 06-solomachine Misbehaviour.ValidateBasic (a ClientMessage reached from MsgUpdateClient): never panics;
+    a missing signature is an error (fix 6331512) *)
+Theorem C47_solo_misbehaviour seq s1 s2 :
+  safe (solo_misbehaviour_validate_basic seq s1 s2) /\
+  solo_misbehaviour_validate_basic seq None s2 <> Ok tt /\ solo_misbehaviour_validate_basic seq s1 None <> Ok tt.
+Proof.
+  exact (conj (solo_misbehaviour_validate_basic_safe seq s1 s2)
+        (conj (proj1 (solo_misbehaviour_nil_sig_errs seq s2)) (proj1 (proj2 (solo_misbehaviour_nil_sig_errs seq s1))))).
+Qed.
+Print Assumptions C47_solo_misbehaviour.
 
 (** non-vacuity: concrete messages / memos that validate Ok, and ones that Err *)
 Example C47_nonvacuous :
@@ -177,6 +181,7 @@ Example C47_nonvacuous :
   msg_v1_validate_basic (ChanOpenInit (B "transfer") ok_chan true) = Ok tt /\
   msg_v1_validate_basic (ChanOpenInit (B "transfer") (mkChan 1 1 (mkCp (B "transfer") []) []) true) = Err /\
   get_packet_metadata (B "x") (PObj (hop1 (JNum (mkNum false 1 8)))) = (Err, true) /\
-  parse_chain_id (B "cosmoshub-4") = Ok 4 /\ parse_chain_id chain_id_witness = Panic /\
+  parse_chain_id (B "cosmoshub-4") = Ok 4 /\ parse_chain_id chain_id_witness = Ok 0 /\
+  msg_client_validate_basic (CreateClient true AnyNil AnyNil) = Err /\
   assert_str None = Panic.
 Proof. vm_compute. repeat split; reflexivity. Qed.
